@@ -46,7 +46,7 @@ theorem exec_frontend (e : Env) (s : Sig) (pr : Bool) (f : Fe) (hrun : e.backend
       ({ queue := [], written := f.written ++ f.queue ++ notices e s },
        if s.graceful then .exit0 else .diedBy s) := by
   rw [onSignal_frontend]
-  obtain ⟨run, info, crit, wait⟩ := e
+  obtain ⟨run, info, crit, wait, gu⟩ := e
   simp only at hrun
   subst hrun
   cases hg : s.graceful <;> cases info <;> cases crit <;> cases wait <;>
